@@ -4,7 +4,7 @@ package main
 // index/rtree/rtree.go that the Lean model transcribes by hand, a canonical text of its control
 // structure: conditions (with if-init), loop kinds and headers, calls, returns, break/continue,
 // and every assignment that mentions tree.height / size / root / a parent / level / leaf /
-// entries field or contains a call; plus the field lists of Rtree, node and entry.  The check
+// entries field, a `math.` constant (the MaxFloat64 sentinels) or contains a call; plus the field lists of Rtree, node and entry.  The check
 // compares it with the committed harness/cmd/c11/skeleton.expected: a `for` turned into `if`, a
 // dropped `height--`, a moved `size--`, an added early `break`, a new struct field (a cache) are
 // reported as a broken tie naming the function, even when the behavioural difference needs a rare
@@ -42,6 +42,9 @@ func mentions(n ast.Node) bool {
 		switch t := x.(type) {
 		case *ast.SelectorExpr:
 			if skelFields[t.Sel.Name] {
+				found = true
+			}
+			if id, ok := t.X.(*ast.Ident); ok && id.Name == "math" { // constants such as math.MaxFloat64
 				found = true
 			}
 		case *ast.CallExpr:
